@@ -280,7 +280,7 @@ def cases(tier, seed):
         if "default" not in outmodes or name == "chef_builtin":
             continue
         for pf in (("parent", "rel"), ("else", "abs")):
-            for nm_ in (1, 2):
+            for nm_ in (1, 2, 3):
                 out.append({"tool": name, "outmode": "default", "opt": 0, "pathform": list(pf), "faults": False, "broken": False,
                             "seed": seed, "names": nm_, "w": 1})
     # histories: the same tool twice into the SAME output path with different options (an output that already exists,
@@ -313,7 +313,8 @@ def path_form(abs_path, cwd, form):
 class Env(object):
     """fresh input trees for one execution"""
 
-    NAMES = [("plt00010", "plt00020", "chk00005"), ("plt_t0.25", "plt_t0.50", "chk00005.old"), ("run_plt00010", "x.plt", "flame_chk00012")]
+    NAMES = [("plt00010", "plt00020", "chk00005"), ("plt_t0.25", "plt_t0.50", "chk00005.old"), ("run_plt00010", "x.plt", "flame_chk00012"),
+             ("plt00010_ck", "plt00020_ck", "chk00005_ck")]       # (a cooked plotfile cooked again: the default suffix is already there)
 
     def __init__(self, workdir, kind, seed, tag, names=0):
         n1, n2, nchk = self.NAMES[names]
